@@ -10,12 +10,12 @@ use std::sync::Arc;
 
 pub mod frim;
 pub mod bmp_io;
+pub mod bmp_sm;
 pub mod c17;
 pub mod ingress;
 pub mod codec;
 pub mod http;
 pub mod rib;
-pub mod ribq;
 
 /// A pause-point handler installed per thread by a harness.
 pub type PointFn = Arc<dyn Fn(&'static str) + Send + Sync>;
